@@ -15,7 +15,7 @@ import os
 import vlib
 
 PID = "C14"
-ALL_OPS = ["KX", "KY", "S", "SR", "SC", "BYE", "CL", "RcR", "RcC", "RvR", "RfR", "RvC", "RfC", "BX", "BY", "B0"]
+ALL_OPS = ["KX", "KY", "S", "SR", "SC", "BYE", "CL", "RcR", "RcC", "RvR", "RfR", "RvC", "RfC", "BX", "BY", "BV", "B0"]
 GATES = ["send", "send_rtp", "send_rtcp", "sync_bye", "bridge", "recv_rtp", "recv_rtcp", "AuthFailOpen"]
 
 # tier -> list of (label, constants, tlc mode)
